@@ -491,6 +491,10 @@ FIXED = {
         {"cls": "H", "kind": "int", "nodes": [[9, {"x": {"y": [1]}}], [8, {}]], "edges": [[3, [1, 2, 3], {"weight": 2, "c": [1]}], [1, [3, 4], {}], [0, [4, 5, 1], {}], [7, [5], {}], [8, [3, 4], {"w": 1}]], "net": {"name": "t", "l": [1]}},
         {"cls": "H", "kind": "str", "nodes": [], "edges": [[None, ["a", "b", "c"], {}], [None, ["b", "c", "d"], {}], [None, ["c", "d", "e"], {}], [None, ["a", "e"], {}]], "net": {}},
         {"cls": "H", "kind": "int", "nodes": [], "edges": [[None, [0, 1, 2], {}], [None, [1, 2, 3], {}], [None, [2, 3, 4], {}], [None, [0, 3, 4], {}]], "net": {}},
+        # node-less but not blank: empty edges with attributes, network attributes (len(H) == 0, bool(H) is False)
+        {"cls": "H", "kind": "int", "nodes": [], "edges": [["e", [], {"w": 1}], [None, [], {}]], "net": {"name": "nodeless"}},
+        # an isolated node, an empty edge and a singleton next to ordinary edges; edge sizes growing along the insertion order
+        {"cls": "H", "kind": "int", "nodes": [[7, {"c": 1}]], "edges": [[None, [1, 2], {}], [None, [], {"w": 0}], [None, [3], {}], [None, [3, 4, 5], {}], [None, [1, 2], {"w": 2}], [None, [5, 6, 1, 2], {}]], "net": {}},
     ],
     "SC": [
         {"cls": "SC", "kind": "int", "nodes": [[9, {}]], "edges": [[5, [1, 2, 3], {"w": 2}], [None, [3, 4], {}], [None, [5, 6], {}]], "net": {"name": "s"}},
@@ -499,6 +503,7 @@ FIXED = {
     "DH": [
         {"cls": "DH", "kind": "int", "nodes": [[9, {}]], "edges": [[2, [1, 2], [3], {"w": 1}], [0, [3], [4, 1], {}], [None, [5], [], {}]], "net": {"name": "d"}},
         {"cls": "DH", "kind": "str", "nodes": [], "edges": [[None, ["a"], ["b", "c"], {}], [None, ["b"], ["a"], {}]], "net": {}},
+        {"cls": "DH", "kind": "int", "nodes": [], "edges": [["e", [], [], {"w": 1}]], "net": {"name": "nodeless"}},
     ],
 }
 
